@@ -178,7 +178,12 @@ def fam_roundtrip(rng, tier, i):
     hdr = bytes(rng.randrange(256) for _ in range(rng.choice([0, 0, 1, 12])))
     s = [new_line("s", p, hdr)]
     cut = rng.randrange(0, len(lines) + 1)
-    s += push_lines(lines[:cut]) + ["read_all u u"] + ACCESSORS
+    for k, (t, pay) in enumerate(lines[:cut]):
+        s.append("push %d %s" % (t, hexb(pay)))
+        if k >= 1 and rng.random() < 0.35:
+            a = lines[rng.randrange(0, k + 1)][0]; b = lines[rng.randrange(0, k + 1)][0]
+            s.append(rng.choice(["n_lines i%d i%d", "read_all i%d i%d", "n_lines e%d e%d", "read_first_n 1 i%d i%d"]) % (min(a, b), max(a, b)))
+    s += ["read_all u u"] + ACCESSORS
     s += ["close", open_line("s", rng.choice(["any", p]), rng.choice(["any", hdr]), ext=rng.randrange(2))]
     s += ["read_all u u"] + ACCESSORS + push_lines(lines[cut:]) + ["read_all u u"] + ACCESSORS + ["dump"]
     return {"family": "roundtrip", "lines": s, "tags": {"p%d" % p}}
@@ -484,6 +489,14 @@ def fam_caches(rng, tier, i, reopen=False, faults=False):
     big = rng.random() < 0.25
     base = (2**63 + rng.randrange(0, 2**62)) if big else None
     lines = mk_lines(rng, p, n, shape=rng.choice(["dense", "jitter", "mixed", "sparse"]), base=base, no_marker=True)
+    if rng.random() < 0.2:
+        cand = sorted(set([rng.randrange(1, 1000), 2**40 + rng.randrange(1000), 2**62 + 17, 2**63 + rng.randrange(1000),
+                           2**63 + 2**62 + 5, U64 - 1 - rng.randrange(3000, 4000), U64 - 1 - rng.randrange(1000, 2000)]))
+        cand = [t for t in cand if avoids_marker_tail(p, [t])]
+        if len(cand) >= 3:
+            lines = [(t, payload(rng, p)) for t in cand]
+            n = len(lines)
+            big = True
     tss = [t for t, _ in lines]
     later = rng.random() < 0.35
     s = [new_line("c", p, b"", () if later else Bs)]
